@@ -221,7 +221,7 @@ func exportImport(x *Exec) string {
 
 func prefixOfKey(storeKey, k string) string {
 	if storeKey == sigtypes.StoreKey {
-		for _, p := range []string{sigtypes.SignatureKey, sigtypes.PayloadLinkKey} {
+		for _, p := range []string{string(sigtypes.SignatureKey), string(sigtypes.PayloadLinkKey)} {
 			if strings.HasPrefix(k, p) {
 				return p
 			}
